@@ -44,7 +44,7 @@ def gen(ctx):
         upd = "-"
         tag = "plain"
         if rng.random() < 0.35:
-            cands = G.all_names(p) + ["Cwnd", "Ack.now", "nosuch"]
+            cands = G.all_names(p) + ["Cwnd", "Ack.now", "nosuch", "zzzzzz", "~~", "A", "0", "{", "Report.", "\u00e9"]
             upd = ";".join("%s=%d" % (G.hx(rng.choice(cands)), rng.choice([0, 1, 7, 2**31 - 1, 2**32 - 1])) for _ in range(rng.randrange(1, 4)))
             tag = "override"
         yield Case("CMP", "%s %s %s" % (G.hx(src), upd, ";".join(G.hx(x) for x in names)), tags=(tag,))
